@@ -696,6 +696,16 @@ func (metadata *Metadata) getStartTime() time.Time {
 	}
 }
 
+// Like util.Walk, except that a symbolic link is just that, also when it is
+// the path given: what is removed from a temporary directory is the link, not
+// what it points to.
+func walkTemp(p string, walkFn filepath.WalkFunc) error {
+	if info, err := os.Lstat(p); err == nil && info.Mode()&os.ModeSymlink != 0 {
+		return walkFn(p, info, nil)
+	}
+	return util.Walk(p, walkFn)
+}
+
 func (self *Fork) cleanSplitTemp(partial *PartialVdrKillReport) *PartialVdrKillReport {
 	if tempPaths, err := self.split_metadata.enumerateTemp(); err != nil {
 		return partial
@@ -709,7 +719,7 @@ func (self *Fork) cleanSplitTemp(partial *PartialVdrKillReport) *PartialVdrKillR
 		var startEvent, cleanupEvent VdrEvent
 		startEvent.Timestamp = self.split_metadata.getStartTime()
 		for _, p := range tempPaths {
-			if err := util.Walk(p, func(tpath string, info os.FileInfo, err error) error {
+			if err := walkTemp(p, func(tpath string, info os.FileInfo, err error) error {
 				if err == nil {
 					partial.Size += uint64(info.Size())
 					partial.Count++
@@ -810,7 +820,7 @@ func (self *Fork) cleanChunkTemp(partial *PartialVdrKillReport) *PartialVdrKillR
 		startEvent.Timestamp = start
 	}
 	for _, p := range temps {
-		if err := util.Walk(p, func(tpath string, info os.FileInfo, err error) error {
+		if err := walkTemp(p, func(tpath string, info os.FileInfo, err error) error {
 			if err == nil {
 				partial.Size += uint64(info.Size())
 				partial.Count++
@@ -900,7 +910,7 @@ func (self *Fork) cleanJoinTemp(partial *PartialVdrKillReport) *PartialVdrKillRe
 		}
 
 		for _, p := range tempPaths {
-			if err := util.Walk(p, func(tpath string, info os.FileInfo, err error) error {
+			if err := walkTemp(p, func(tpath string, info os.FileInfo, err error) error {
 				if err == nil {
 					partial.Size += uint64(info.Size())
 					partial.Count++
